@@ -32,10 +32,22 @@ def _limit_as(nbytes):
     return f
 
 
+MIX_CHECKED = {"on": os.environ.get("VERIF_MIX_CHECKED", "on") != "off", "runs": 0}
+
+
 def sfs(args, stdin=None, kind="release", env=None, timeout=30, exe=None, cwd=None, mem_limit=None, stderr_path=None, stdin_tty=False):
     """Run `sfs args...`; stdin: bytes or None (=/dev/null). Never raises on failure of the tool.
     mem_limit: optional RLIMIT_AS in bytes for the child. stdin_tty: stdin is an (idle) interactive terminal, as at a shell
     prompt - only meaningful when the input is named by a path."""
+    if exe is None and kind == "release" and MIX_CHECKED["on"]:
+        # Every fourth invocation (chosen by its own content, so a re-run picks the same build) goes to the CHECKED build of the binary:
+        # integer overflow traps, debug assertions and the standard library's precondition checks of unsafe functions in the sfs
+        # crates. Its output must be what the release build prints - the monitors compare it exactly as they compare any other run.
+        import zlib
+        h = zlib.crc32(("\x00".join(str(a) for a in args if not str(a).startswith("/")) + "|%d" % len(stdin or b"")).encode())
+        if h % 4 == 0:
+            kind = "ovf"
+            MIX_CHECKED["runs"] += 1
     exe = exe or build.cli(kind)
     e = dict(BASE_ENV)
     if env:
